@@ -10,11 +10,12 @@ formatter) are placed in a two-iteration loop.
     reference evaluates - left to right, innermost first - equals the sequence
     of RUN events of the corresponding procedures in the BASIC09 run, and all
     printed values agree (a result overwritten before use would show)."""
+import re
 from fractions import Fraction
 
 from hypothesis import strategies as st
 
-from vf import core, diff, sem
+from vf import core, diff, sem, tool
 from vf.b09 import interp as b09i
 from vf.b09 import parse
 from vf.cb import render
@@ -362,7 +363,7 @@ def static_check(out, prog, case):
 
     def is_temp(name):
         n = name.upper().split(".")[0]
-        return n not in user and n not in prologue_typed and n not in ("ERRNUM",)
+        return n not in user and n not in prologue_typed and n not in ("ERRNUM", "PID", "DISPLAY", "PLAY", "ERNO")  # the run-time records are no temporaries
 
     for ln in lines:
         assigned = set()
@@ -487,7 +488,68 @@ def campaign(seed, n, switches=frozenset()):
     return stats
 
 
+_CALL_RE = re.compile(r"\b(INT|VAL|INSTR|BUTTON|POINT)\(|(HEX\$|STRING\$)\(|(INKEY\$)")
+_PROC_OF = {"INT": "ecb_int", "VAL": "ecb_val", "INSTR": "ecb_instr", "BUTTON": "ecb_button", "POINT": "ecb_point", "HEX$": "ecb_hex", "STRING$": "ecb_string", "INKEY$": "inkey"}
+_TEMPLATE_NAMES = [["var", "A"], ["svar", "A"], ["var", "B"], ["var", "C"], ["var", "I"], ["var", "ZN"], ["svar", "ZS"], ["arr", "ZQ", []], ["var", "ZI"]]
+
+
+def enumerate_contexts(part, nparts, switches=frozenset()):
+    """Every statement template of the grammar (the C07 / C10 table) with an operand that must become a call (INT(A), HEX$(A)), in every block
+    context: statically, no temporary is read before its statement group assigns it, and the emitted text holds exactly one RUN per converted
+    function of the source - none lost, none duplicated (complete enumeration; the dynamic order check stays with the drawn programs)."""
+    from collections import Counter
+    from vf.props import c07
+
+    stats = Stats()
+    stmts = [t.format(n="INT(A)", s="HEX$(A)") for t in c10.NUM_SLOTS] + [t.format(n="INT(A)", s="HEX$(A)") for t in c10.STR_SLOTS] + c07.EXTRA_STATEMENTS
+    k = 0
+    for st_ in stmts:
+        if st_.startswith(("INPUT ZQ", "READ ZQ", "ZN=VARPTR")) and "no_convertible_in_read_input_subscripts" in switches:
+            stats.excluded["no_convertible_in_read_input_subscripts"] += 1
+            continue
+        for cname, ctx in c07.CONTEXTS:
+            ends_line = st_.startswith(("REM", "'")) or "DATA" in st_
+            has_if = st_.startswith("IF") or "NEXT" in st_ or "FOR " in st_
+            if cname != "plain" and (ends_line and cname in ("after_colon", "if_then", "elseif_arm", "for_body")):
+                continue
+            if has_if and cname not in ("plain", "after_colon"):
+                continue
+            if st_.startswith("IF") and "ELSE" in st_ and "no_convertible_in_ifelse_cond" in switches:
+                stats.excluded["no_convertible_in_ifelse_cond"] += 1
+                continue
+            k += 1
+            if k % nparts != part:
+                continue
+            src = ctx.format(s=st_)
+            case = {"source": src}
+            status, out = tool.try_convert(src, initialize_vars=True)
+            stats.evaluations += 1
+            stats.classes["context_" + cname] += 1
+            stats.classes["status_" + status] += 1
+            if status != "ok":
+                continue
+            try:
+                static_check(out, _TEMPLATE_NAMES, case)
+                want = Counter()
+                for m in _CALL_RE.finditer(src):
+                    want[_PROC_OF[m.group(1) or m.group(2) or m.group(3)]] += 1
+                got = Counter()
+                for ln in parse.parse_program(out):
+                    for s_ in ln.stmts:
+                        if s_.kind == "run" and s_.name.lower() in want.keys() | set(_PROC_OF.values()):
+                            got[s_.name.lower()] += 1
+                if got != want:
+                    raise Violation("the source holds %s converted functions, the emitted text runs %s" % (dict(want), dict(got)), case)
+            except Violation as v:
+                stats.fail(v.detail, v.case)
+                return stats
+            stats.nontrivial.add(core.digest(src))
+    return stats
+
+
 def plan(tier, seed, switches):
     if tier == "quick":
-        return [("campaign", [dict(seed=seed * 100 + k, n=400, switches=switches) for k in range(4)])]
-    return [("campaign", [dict(seed=seed * 1000 + k, n=4000, switches=switches) for k in range(16)])]
+        return [("campaign", [dict(seed=seed * 100 + k, n=400, switches=switches) for k in range(4)]),
+                ("enumerate_contexts", [dict(part=k, nparts=6, switches=switches) for k in range(6)])]
+    return [("campaign", [dict(seed=seed * 1000 + k, n=4000, switches=switches) for k in range(16)]),
+            ("enumerate_contexts", [dict(part=k, nparts=6, switches=switches) for k in range(6)])]
